@@ -826,7 +826,7 @@ def brace_list(toks, what):
     return out
 
 
-def run_unit(gname, body, cells, sig, result, hooks, store=None, comment="the function", prefix="", brace=None):
+def run_unit(gname, body, cells, sig, result, hooks, store=None, comment="the function", prefix="", brace=None, ret_this=False):
     """cells: [(cpp name, type, ident)]; result: ('pure', ty) | ('brace', n) | ('state', [cpp names]) ; returns defs"""
     what = gname
     ast = parse_body(body, what)
@@ -869,9 +869,15 @@ def run_unit(gname, body, cells, sig, result, hooks, store=None, comment="the fu
                 return "None"
             if v is not None and v != [("op", "*"), ("id", "this")]:
                 raise OutOfGrammar("%s: value returned from a void function" % what)
+            if ret_this and v is None:
+                raise OutOfGrammar("%s: bare return in an operator that returns *this" % what)
+            if not ret_this and v is not None:
+                raise OutOfGrammar("%s: `return *this` in a void function" % what)
             return "(Some %s)" % shape(env2) if throws else shape(env2)
 
         def k(env2):
+            if ret_this:
+                raise OutOfGrammar("%s: control reaches the end without `return *this`" % what)
             return "(Some %s)" % shape(env2) if throws else shape(env2)
         tys = [sx.GTYPE[env.get(n).ty] for n in result[1]]
         rtype = tys[0] if len(tys) == 1 else "(%s)%%type" % " * ".join(tys)
@@ -929,7 +935,7 @@ def iter_unit(src, which):
         raise OutOfGrammar("%s: prefix operator expected" % gname)
     cells = [("i.zerobased", "N", "i_zb"), ("i.circular", "N", "i_c"), ("max", "N", "i_max")]
     defs = run_unit(gname, body, cells, ["(it : nat * nat * nat)"], ("state", ["i.zerobased", "i.circular", "max"]), QHooks(),
-                    prefix="let '(i_zb, i_c, i_max) := it in\n    ", comment="CircularIndexIterator::operator%s" % ("++" if which == "incr" else "--"))
+                    prefix="let '(i_zb, i_c, i_max) := it in\n    ", comment="CircularIndexIterator::operator%s" % ("++" if which == "incr" else "--"), ret_this=True)
     if which == "decr":
         rcls = src[src.index("struct ReverseCircularIndexIterator"):src.index("class CircularRange")]
         check_delegation(rcls, r"reference\s+operator\*\s*\(", "auto tmp = forwardit; return *(--tmp);", "g_rit_deref")
@@ -1086,7 +1092,7 @@ END = "(* end of LmqrGen *)"
 
 def write(repo=None, outfile=None, write_ref=False):
     repo = repo or os.environ.get("VERIF_REPO", "/repo")
-    outfile = outfile or os.path.join(VERIF, "coq", "gen", "LmqrGen.v")
+    outfile = outfile or os.path.join(os.environ.get("VERIF_GEN_OUT") or os.path.join(VERIF, "coq", "gen"), "LmqrGen.v")
     gl.END = END
     return gl.write_generic(repo, outfile, write_ref, units, HEADER, END, REF, "LmqrGen.ref.v",
                             "LmqrGen.v — by translate/gen_lmqr.py", " , ".join(os.path.join(repo, x) for x in (RING, QRH, AAH, AND)), BINDERS, CTX)
